@@ -583,10 +583,27 @@ func (x *Exec) ptrToObj(t types.Type, ref *Term) Val { // t = pointer type
 	return Val{T: t, L: []*Term{ref}, Ptr: &PtrInfo{Kind: PObj, T: t.Underlying().(*types.Pointer).Elem()}}
 }
 
+// regPtr remembers what a pointer value (a unique address term) points to, so that the information
+// survives a trip through a variable or a closure.
+func (x *Exec) regPtr(v Val) Val {
+	if v.Ptr != nil && len(v.L) > 0 && !v.L[0].hasBnd {
+		if x.ptrTab == nil {
+			x.ptrTab = map[int]*PtrInfo{}
+		}
+		x.ptrTab[v.L[0].ID] = v.Ptr
+	}
+	return v
+}
+
 // ptrInfoOf recovers address information for a pointer value.
 func (x *Exec) ptrInfoOf(v Val) *PtrInfo {
 	if v.Ptr != nil {
 		return v.Ptr
+	}
+	if len(v.L) > 0 && x.ptrTab != nil {
+		if pi, ok := x.ptrTab[v.L[0].ID]; ok {
+			return pi // address information survives a trip through a variable
+		}
 	}
 	if p, ok := v.T.Underlying().(*types.Pointer); ok {
 		if _, ok := isStruct(p.Elem()); ok {
@@ -623,7 +640,7 @@ func (x *Exec) load(fr *Frame, st *State, pv Val, instr ssa.Instruction) Val {
 			return Val{T: t, L: x.loadArrayValue(st, arr, pi.Arr)}
 		}
 	}
-	x.note("load through opaque pointer of type %s", pv.T)
+	x.note("load through opaque pointer of type %s in %s", pv.T, fr.fn.Name())
 	v := x.freshVal(t, "opq")
 	x.assumeWF(st, t, v.L)
 	return v
@@ -683,7 +700,7 @@ func (x *Exec) fieldAddr(fr *Frame, st *State, pv Val, field int, instr ssa.Inst
 			return Val{T: resT, L: []*Term{x.interior(pi.T, field, ref)}, Ptr: &PtrInfo{Kind: PObj, T: ft}}
 		}
 		loc := Loc{structClass(pi.T, field), []*Term{ref}}
-		return Val{T: resT, L: []*Term{x.tb.UF("addr:"+loc.Class, x.tb.BV(64), ref)}, Ptr: &PtrInfo{Kind: PLoc, T: ft, Loc: loc}}
+		return x.regPtr(Val{T: resT, L: []*Term{x.tb.UF("addr:"+loc.Class, x.tb.BV(64), ref)}, Ptr: &PtrInfo{Kind: PLoc, T: ft, Loc: loc}})
 	}
 	return Val{T: resT, L: []*Term{x.tb.Fresh("fa", x.tb.BV(64))}, Ptr: &PtrInfo{Kind: POpaque, T: ft}}
 }
